@@ -1,6 +1,7 @@
 TUS = ['src/client/QXmppCarbonManagerV2.cpp', 'src/client/QXmppCarbonManager.cpp', 'src/client/QXmppClientExtension.cpp', 'src/base/QXmppUtils.cpp']
 MODELS = ['qt_core.c', 'qt_dom.c', 'qt_object.c', 'c11_env.c']
-BOUND = 'stanza tree: outer + 3 children + 2 grandchildren each + 2 great-grandchildren each (22 elements), every tag from {message,sent,received,forwarded,body,private}, every xmlns from {carbons:2, forward:0, jabber:client, carbons:1, inherited}, child counts 0..max; outer from absent or <= 4 arbitrary UTF-16 units; configured bare JID <= 4 arbitrary units'
+BOUND = 'stanza tree: outer + 3 children + 2 grandchildren each + 2 great-grandchildren each (22 elements), every tag from {message,sent,received,forwarded,body,private,messages}, every xmlns from {carbons:2, forward:0, jabber:client, carbons:1, inherited}, child counts 0..max; outer from absent or <= 4 arbitrary UTF-16 units; configured bare JID <= 4 arbitrary units'
+BOUND_BIG = BOUND.replace('3 children + 2 grandchildren each + 2 great-grandchildren each (22 elements)', '3 children + 3 grandchildren each + 3 great-grandchildren each (40 elements)').replace('<= 4 arbitrary', '<= 8 arbitrary')
 def I(name, entry, **kw):
     d = dict(name=name, entry=entry, unwind=14, timeout_s=600, mem_gb=8, cdefs={'VP_ACTIVATE_HOOK': 'c11_on_signal', 'QS_CAP': 20, 'DOM_MAXCH': 3, 'DOM_MAXATTR': 2}, bound=BOUND); d.update(kw); return d
 SPEC = dict(
@@ -8,8 +9,23 @@ SPEC = dict(
     groups=[
         dict(name='carbon', harness='h.cpp', tus=TUS, models=MODELS, loop_bounds={r'^_ZNSt6ranges14__copy_or_move': 100},
              instances=[I('v2_tree', 'h_v2'), I('v1_tree', 'h_v1'), I('v2_nofrom', 'h_v2_nofrom'), I('v1_nofrom', 'h_v1_nofrom'), I('first_child', 'h_first_child', bound='parent (possibly null) with 0..3 children, tags/namespaces as above, query tag/namespace from the same tables or empty')]),
+        dict(name='carbon_big', harness='h.cpp', tus=TUS, models=MODELS, loop_bounds={r'^_ZNSt6ranges14__copy_or_move': 100},
+             cxxdefs={'C11_N1': 3, 'C11_N2': 3, 'C11_N3': 3, 'C11_STRLEN': 8},
+             instances=[I(n + '_big', e, tiers=('thorough',), unwind=30, timeout_s=900, timeout_thorough_s=2700, mem_gb=12, bound=BOUND_BIG) for n, e in
+                        [('v2_tree', 'h_v2'), ('v1_tree', 'h_v1'), ('v2_nofrom', 'h_v2_nofrom'), ('v1_nofrom', 'h_v1_nofrom')]]),
     ],
-    bounds=[BOUND],
-    assumptions=[],
-    outside=[],
+    bounds=[BOUND, 'thorough: ' + BOUND_BIG,
+            'one handleStanza call per run from an arbitrary configured bare JID (single step; the managers keep no state between stanzas)',
+            'first_child: parent (possibly null) with 0..3 children, query tag/namespace from the tables or empty (wildcard)'],
+    assumptions=['the manager is registered with a client (client() != nullptr); the configured bare JID is ANY string of the bound, including empty',
+                 'QDomElement::attribute() of an absent attribute returns the empty default (Qt contract, DOM model)',
+                 'children of an element are elements only (DOM model has no text/comment nodes between elements); namespaceURI() = own xmlns or the parent\'s',
+                 'QXmppMessage::parse / setCarbonForwarded / constructor / destructor are recording models (WHICH element is parsed, flag value); message content is C01/C17\'s subject',
+                 'QXmppClient::configuration().jidBare() returns the harness-chosen string; QXmppClient::injectMessage is a recording model returning an arbitrary bool',
+                 'QMetaObject::activate records the emission (sender, meta object, signal index, argument snapshot); slots are not run; QXmppLoggable::logMessage is a no-op; V2\'s log text (QStringBuilder::convertTo) is not built',
+                 'signal indices of messageSent/messageReceived are measured by calling the real moc-generated signal bodies before the stanza is handled'],
+    outside=['e2ee metadata other than std::nullopt (the parameter is unused by V2)', 'the dispatch inside QXmppClient (StanzaPipeline/MessagePipeline) before and after the manager: the managers are called non-virtually on raw storage',
+             'what message handlers do with an injected message; content of the inner message (parse is cut)', 'composition of jidBare() from user/domain (QXmppConfiguration)',
+             'case-insensitive or normalising comparisons (model asserts -> inconclusive if a change introduces them)', 'enabling carbons (IQ / bind2), onRegistered/onUnregistered',
+             'trees deeper than 4 levels or wider than the bound; more than one carbon-namespace look-alike (urn:xmpp:carbons:1) and one tag look-alike (messages)'],
 )
